@@ -737,10 +737,55 @@ def load_ref():
     return ref
 
 
+def derive_classmap(ref, cs, py):
+    """A ctypes class that the committed map does not know (added after the map was written) is mapped
+    automatically when the code itself says what it mirrors: it is embedded in / pointed to from an already
+    mapped class at the offset where the C structure embeds / points to a structure; failing that, a C
+    structure called reb_<snake_case(class)>.  Derived entries are compared like committed ones."""
+    cm = {e["class"]: e for e in ref["classmap"]}
+    todo = [c for c in py["classes"] if c not in cm]
+    progress = True
+    while todo and progress:
+        progress = False
+        for cname in list(todo):
+            found = None
+            for pc, pv in py["classes"].items():
+                if pc not in cm or cm[pc]["struct"] not in cs["structs"]:
+                    continue
+                cbyoff = {m["off"]: m for m in cs["structs"][cm[pc]["struct"]]["members"]}
+                for f in pv["members"]:
+                    pk, ck = f["kind"], cbyoff.get(f["off"], {}).get("kind")
+                    via_ptr = False
+                    while pk and ck and pk[0] in ("ptr", "arr") and ck[0] == pk[0]:
+                        via_ptr = via_ptr or pk[0] == "ptr"
+                        pk, ck = pk[1], ck[1]
+                    if pk == ["struct", cname] and ck and ck[0] == "struct":
+                        found = dict(struct=ck[1], prefix=via_ptr and py["classes"][cname]["size"] < cs["structs"].get(ck[1], {}).get("size", 0))
+                        break
+                if found:
+                    break
+            if not found:
+                snake = "reb_" + re.sub(r"(?<=[a-z0-9])([A-Z])", r"_\1", cname).lower()
+                for cand in (snake, "reb_" + cname.lower(), cname):
+                    if cand in cs["structs"]:
+                        found = dict(struct=cand, prefix=False)
+                        break
+            if found:
+                e = {"class": cname, "struct": found["struct"], "derived": True}
+                if found["prefix"]:
+                    e["prefix"] = True
+                ref["classmap"].append(e)
+                cm[cname] = e
+                todo.remove(cname)
+                progress = True
+
+
 def extract(d, workdir, findings=(), dwarf=False):
     ref = load_ref()
     cs = c_side(d, workdir, extra_tags={e["struct"] for e in ref["classmap"]})
     py = py_side(d, workdir)
+    if py.get("import_error") is None:
+        derive_classmap(ref, cs, py)
     res = dict(c=cs, py=py, ref=ref, changed=[])
     gen = os.path.join(LEAN, "RV", "Gen")
     files = {"C18LayoutC.lean": lean_layout("c", cs["structs"], "C structures of src/rebound.h as laid out by the compiler (repo flags)"),
